@@ -31,6 +31,7 @@ type Contract struct {
 	Assumes     []*Clause    // assumed facts about the inputs (not required of callers; listed in evidence)
 	Commutes    []CommuteReq // map-range loops with a commutativity obligation
 	StoreGuards []*Clause    // storeguard[label] T.f: expr - must hold whenever the unit stores to field f of a T (Raw = "T.f"; value = the stored value)
+	ChanSends   []*Clause    // chansend[label]: expr over ch, val - must hold for every channel send (statement or select case) of the unit
 	DynCalls    []*Clause    // dyncall[label] <FuncTypeName>: expr over arg0.. - obligation at every call of a function value of that named type (Raw = type name)
 	SortBy      []*Clause    // sortby <k>: expr - meaning of the less closure of the k-th sort.Slice / sort.SliceStable call (Loop = k)
 	Carve       *Clause      // known-finding carve-out: every obligation is split into (cond ==> goal) and (!cond ==> goal)
@@ -264,7 +265,7 @@ func parseCExpr(text string) (ast.Expr, string, error) {
 }
 
 var clauseKeywords = map[string]bool{
-	"func": true, "props": true, "ghostensures": true, "case": true, "assume": true, "carve": true, "caseall": true, "commute": true, "sortby": true, "assumeframe": true, "guarded": true, "guardedfield": true, "dyncall": true, "storeguard": true, "mode": true, "requires": true, "ensures": true, "invariant": true,
+	"func": true, "props": true, "ghostensures": true, "case": true, "assume": true, "carve": true, "caseall": true, "commute": true, "sortby": true, "assumeframe": true, "guarded": true, "guardedfield": true, "dyncall": true, "storeguard": true, "chansend": true, "mode": true, "requires": true, "ensures": true, "invariant": true,
 	"modifies": true, "safety": true, "overflow": true, "inline": true, "trusted": true, "dispatch": true,
 	"let": true, "spec": true, "external": true, "uf": true, "params": true, "results": true,
 	"global": true, "noinline": true, "nocontract": true, "expand": true, "split": true, "strictpkgs": true, "modcomps": true, "axiom": true, "uses": true, "scan": true, "witness": true, "havoc": true, "inlineall": true, "unroll": true,
@@ -476,6 +477,10 @@ func (cs *ContractSet) parseContractSource(pkgPath, filename string, src []byte)
 				if c := mk(strings.TrimSpace(rest[colon+1:])); c != nil {
 					c.Loop = n
 					cur.Invs = append(cur.Invs, c)
+				}
+			case "chansend":
+				if c := mk(strings.TrimSpace(strings.TrimPrefix(strings.TrimSpace(rest), ":"))); c != nil {
+					cur.ChanSends = append(cur.ChanSends, c)
 				}
 			case "storeguard":
 				colon := strings.Index(rest, ":")
